@@ -34,10 +34,13 @@ Other(m) == IF m = 1 THEN <<R(1)>> ELSE IF m = 2 THEN <<R(2), R(0)>> ELSE <<R(1)
 \* grid 1: runs every 12 h with lead times 0, 12, 24; grid 2: daily runs whose lead times reach beyond the next run and are unevenly
 \* spaced (0, 12, 24, 36, 48, 72): the valid times of consecutive runs interleave
 \* grid 3: five daily runs with lead times coarsening out to 120 h
-XTg(g) == IF g = 1 THEN <<Day1, Day1 + 43200, Day1 + 86400>> ELSE IF g = 2 THEN <<Day1, Day1 + 86400, Day1 + 172800>>
+\* grid 4: hourly runs with lead times in HALF hours (0, 0.5, 1, 1.5, 2 h): the valid times 1 h and 1.5 h after a run are different times
+LUnit(g) == IF g = 4 THEN 1800 ELSE 3600
+XTg(g) == IF g = 4 THEN <<Day1, Day1 + 3600, Day1 + 7200>> ELSE IF g = 1 THEN <<Day1, Day1 + 43200, Day1 + 86400>> ELSE IF g = 2 THEN <<Day1, Day1 + 86400, Day1 + 172800>>
           ELSE [k \in 1..5 |-> Day1 + 86400 * (k - 1)]
-XLg(g) == IF g = 1 THEN <<0, 12, 24>> ELSE IF g = 2 THEN <<0, 12, 24, 36, 48, 72>> ELSE <<0, 12, 24, 36, 48, 72, 96, 120>>
+XLg(g) == IF g = 4 THEN <<0, 1, 2, 3, 4>> ELSE IF g = 1 THEN <<0, 12, 24>> ELSE IF g = 2 THEN <<0, 12, 24, 36, 48, 72>> ELSE <<0, 12, 24, 36, 48, 72, 96, 120>>
 XObs(g, mo) == [p \in Pos(Len(XTg(g)), Len(XLg(g)), 2) |-> IF <<p[1], p[2]>> \in mo THEN NaN
+                  ELSE IF g = 4 THEN R(((XTg(g)[p[1]] - Day1) \div 1800) + XLg(g)[p[2]] + 100 * p[3])
                   ELSE R(((XTg(g)[p[1]] - Day1) \div 43200) + (XLg(g)[p[2]] \div 12) + 100 * p[3])]   \* a function of valid time and location
 ExpCases(u) == {[kind |-> "exp", grid |-> 1, times |-> ts, mo |-> mo, hours |-> h, oleads |-> ol] :
                   ts \in {<<1, 2, 3>>, <<1, 3>>, <<2>>}, mo \in {{}, {<<1, 1>>}, {<<1, 2>>, <<2, 1>>}},
@@ -47,10 +50,12 @@ ExpCases(u) == {[kind |-> "exp", grid |-> 1, times |-> ts, mo |-> mo, hours |-> 
                   h \in {<<0>>, <<0, 12>>}, ol \in {<<0, 12, 24, 36, 48, 72>>, <<0, 24, 60>>}}
 ExpCases3(u) == {[kind |-> "exp", grid |-> 3, times |-> <<1, 2, 3, 4, 5>>, mo |-> mo, hours |-> h, oleads |-> ol] :
                    mo \in {{}, {<<1, 4>>, <<2, 1>>}}, h \in {<<0, 12>>, <<0>>}, ol \in {<<0, 12, 24, 36, 48, 72, 96, 120>>, <<0, 60, 84>>}}
+ExpCases4(u) == {[kind |-> "exp", grid |-> 4, times |-> ts, mo |-> mo, hours |-> h, oleads |-> ol] :
+                   ts \in {<<1, 2, 3>>, <<1, 3>>}, mo \in {{}, {<<1, 4>>, <<2, 1>>}}, h \in {<<0>>, <<0, 1>>, <<2>>}, ol \in {<<0, 1, 2, 3, 4>>, <<3>>, <<1, 5>>, <<2, 3>>}}
 SubT(c1) == [k \in DOMAIN c1.times |-> XTg(c1.grid)[c1.times[k]]]
 SubObs(c1) == [p \in Pos(Len(c1.times), Len(XLg(c1.grid)), 2) |-> XObs(c1.grid, c1.mo)[<<c1.times[p[1]], p[2], p[3]>>]]
 
-Cases(u) == IF Kind = "acc" THEN AccCases(u) ELSE IF Kind = "ens" THEN EnsCases(u) ELSE ExpCases(u) \cup ExpCases3(u)
+Cases(u) == IF Kind = "acc" THEN AccCases(u) ELSE IF Kind = "ens" THEN EnsCases(u) ELSE ExpCases(u) \cup ExpCases3(u) \cup ExpCases4(u)
 
 Emit ==
   CASE c.kind = "acc" ->
@@ -68,9 +73,9 @@ Emit ==
                        pit |-> J(Pit(c.ens, c.obs))]))
     [] c.kind = "exp" ->
         LET ts == SubT(c)  C == SubObs(c)  ot == ExpandTimes(ts, c.hours)  XL == XLg(c.grid)
-            E == ExpandVerif(ts, XL, 2, C, c.hours, c.oleads) IN
+            E == ExpandVerifU(ts, XL, 2, C, c.hours, c.oleads, LUnit(c.grid)) IN
         PrintT(ToJson([kind |-> "exp", times |-> ts, leads |-> XL, locs |-> <<5, 9>>, obs |-> FlatJ(C, Len(ts), Len(XL), 2),
-                       hours |-> c.hours, oleads |-> c.oleads, otimes |-> ot, eobs |-> FlatJ(E, Len(ot), Len(c.oleads), 2)]))
+                       hours |-> c.hours, oleads |-> c.oleads, lunit |-> LUnit(c.grid), otimes |-> ot, eobs |-> FlatJ(E, Len(ot), Len(c.oleads), 2)]))
 Init == c \in Cases(0) /\ phase = "case"
 Evaluate == phase = "case" /\ phase' = "emitted" /\ c' = c /\ Emit
 Next == Evaluate
@@ -79,9 +84,11 @@ Spec == Init /\ [][Next]_vars
 InvAccIsPreAgg == c.kind = "acc" => \A i \in 1..ANT : AccumulateIsPreAggSum([j \in 1..ANL |-> AObs(c.mo)[<<i, j, 1>>]], c.w)
 InvCdfMonotone == c.kind = "ens" => CdfMonotone(c.ens, Ths)
 InvPitRange == c.kind = "ens" => (IsNaN(Pit(c.ens, c.obs)) \/ (Ge(Pit(c.ens, c.obs), Zero) /\ Le(Pit(c.ens, c.obs), One)))
-InvExpandSound == c.kind = "exp" => ExpandSound(SubT(c), XLg(c.grid), 2, SubObs(c), c.hours, c.oleads)
+InvExpandSound == c.kind = "exp" => ExpandSoundU(SubT(c), XLg(c.grid), 2, SubObs(c), c.hours, c.oleads, LUnit(c.grid))
 \* ---- witnesses against vacuity (tools/vacuity.py): each is the NEGATION of a lemma's antecedent and must be VIOLATED by some enumerated case ----
-W_ExpandPlaces == ~(c.kind = "exp" /\ \E p \in DOMAIN ExpandVerif(SubT(c), XLg(c.grid), 2, SubObs(c), c.hours, c.oleads) :
-                        ~IsNaN(ExpandVerif(SubT(c), XLg(c.grid), 2, SubObs(c), c.hours, c.oleads)[p]))
+W_ExpandPlaces == ~(c.kind = "exp" /\ \E p \in DOMAIN ExpandVerifU(SubT(c), XLg(c.grid), 2, SubObs(c), c.hours, c.oleads, LUnit(c.grid)) :
+                        ~IsNaN(ExpandVerifU(SubT(c), XLg(c.grid), 2, SubObs(c), c.hours, c.oleads, LUnit(c.grid))[p]))
+W_ExpandHalfHour == ~(c.kind = "exp" /\ c.grid = 4 /\ \E p \in DOMAIN ExpandVerifU(SubT(c), XLg(c.grid), 2, SubObs(c), c.hours, c.oleads, 1800) :
+                        c.oleads[p[2]] % 2 = 1 /\ ~IsNaN(ExpandVerifU(SubT(c), XLg(c.grid), 2, SubObs(c), c.hours, c.oleads, 1800)[p]))
 W_AccWindow == ~(c.kind = "acc" /\ ~AccErr(c))
 =============================================================================
